@@ -346,6 +346,13 @@ def operator_of(alt):
     return ops[1] if len(ops) > 1 else None
 
 
+def assoc_operator_of(alt):
+    """the operator of a left-recursive branch as the documentation means it: the first element behind the
+    left operand that carries tokens (predicates, renames, elisions and actions in between do not count)"""
+    ops = [o for o in alt['ops'] if o['k'] not in ('pred', 'rename', 'elision', 'action')]
+    return ops[1] if len(ops) > 1 else None
+
+
 def outside_follow(g, rule_name):
     """tokens that may follow a reference to the rule located outside the rule's own body"""
     s = set()
